@@ -3,8 +3,8 @@
 EXTENDS Incentive, Json, IOUtils
 
 Rec == ndJsonDeserialize(IOEnv.TRACE)
-VARIABLES l, st, meta, lastClaim, cbs, wstart, sh
-vars == <<l, st, meta, lastClaim, cbs, wstart, sh>>
+VARIABLES l, st, meta, lastClaim, cbs, wstart, sh, taint
+vars == <<l, st, meta, lastClaim, cbs, wstart, sh, taint>>
 
 Unchanged(ev) == << <<"C11.rejected.unchanged", ev.dpre = ev.dpost>> >>
 Untouched(s, t) ==
@@ -13,6 +13,20 @@ Untouched(s, t) ==
 
 \* has a position been closed in this run ?
 NextCbs(ev, t) == IF ev.ev = "close" /\ ev.res = "ok" THEN TRUE ELSE cbs
+\* Known finding S9, as narrowly as its two mechanisms allow (so that it hides as little else as possible): (a) a position
+\* closed in the running epoch before that epoch's snapshot - the snapshot then has the reduced global weight while the
+\* closer's history still carries the old weight for this epoch; (b) an address that has closed a position and claims
+\* afterwards - the claim deletes its weight history and re-writes the last weight its walk saw, which can be a pre-close
+\* one (the walk starts from the earliest entry and only reads the entries of epochs in which a flow is active).
+\* taint = [ep : (a) holds for the running epoch, ever : who has closed a position, stale : who did (b)]
+NoTaint == [ep |-> FALSE, ever |-> [u \in Users |-> FALSE], stale |-> [u \in Users |-> FALSE]]
+NextTaint(ev) ==
+  IF ev.res # "ok" THEN taint
+  ELSE CASE ev.ev = "newepoch" -> [taint EXCEPT !.ep = FALSE]
+         [] ev.ev = "close" -> [taint EXCEPT !.ever[ev.actor] = TRUE, !.ep = @ \/ ~st.snapshot]
+         [] ev.ev = "claim" -> [taint EXCEPT !.stale[ev.actor] = @ \/ taint.ever[ev.actor]]
+         [] OTHER -> taint
+Tainted(tt) == tt.ep \/ \E u \in Users : tt.stale[u]
 
 Ident(ev) == IF ev.args.lbl = "" THEN [k |-> "id", id |-> ev.args.id, label |-> ""]
              ELSE [k |-> "label", id |-> -1, label |-> ev.args.lbl]
@@ -88,7 +102,7 @@ EvChecks(ev, t) ==
                                 \o WalkChecks(ev, t, u)
           [] ev.ev \in {"snapshot", "newepoch"} -> Untouched(st, t)
           [] OTHER -> << <<"TRACE.unknown-event", FALSE>> >>)
-  \o StateChecksC11(t) \o StateChecksC12(t) \o StateChecksC13(t) \o SharesChecks(t, NextCbs(ev, t))
+  \o StateChecksC11(t) \o StateChecksC12(t) \o StateChecksC13(t) \o SharesChecks(t, Tainted(NextTaint(ev)))
   \o ShareChecksX(ev, t, IF ev.ev = "claim" /\ ev.res = "ok" THEN [lastClaim EXCEPT ![ev.actor] = st.epoch] ELSE lastClaim)
 
 Report(ev, bad) ==
@@ -96,15 +110,15 @@ Report(ev, bad) ==
   ELSE PrintT(ToJson([k |-> "BAD", run |-> ev.run, step |-> IF ev.ev = "reset" THEN -1 ELSE ev.step,
                       line |-> l, ev |-> ev.ev, bad |-> bad]))
 Init == /\ l = 1 /\ st = [lpbal |-> "0"] /\ meta = [fee |-> "0"] /\ lastClaim = [u \in Users |-> -1] /\ cbs = FALSE
-        /\ wstart = [aw |-> [u \in Users |-> Zero], gw |-> Zero, ep |-> -1] /\ sh = <<>>
+        /\ wstart = [aw |-> [u \in Users |-> Zero], gw |-> Zero, ep |-> -1] /\ sh = <<>> /\ taint = NoTaint
 Next ==
   /\ l <= Len(Rec)
   /\ LET ev == Rec[l] IN
        IF ev.ev = "reset"
        THEN /\ st' = ev.obs /\ meta' = ev.cfg /\ lastClaim' = [u \in Users |-> -1] /\ cbs' = FALSE
-            /\ wstart' = [aw |-> ev.obs.aw, gw |-> Zero, ep |-> -1] /\ sh' = <<>>
+            /\ wstart' = [aw |-> ev.obs.aw, gw |-> Zero, ep |-> -1] /\ sh' = <<>> /\ taint' = NoTaint
        ELSE /\ Report(ev, Failed(EvChecks(ev, ev.obs)))
-            /\ st' = ev.obs /\ meta' = meta /\ cbs' = NextCbs(ev, ev.obs) /\ wstart' = NextWstart(ev, ev.obs) /\ sh' = NextSh(ev.obs)
+            /\ st' = ev.obs /\ meta' = meta /\ cbs' = NextCbs(ev, ev.obs) /\ wstart' = NextWstart(ev, ev.obs) /\ sh' = NextSh(ev.obs) /\ taint' = NextTaint(ev)
             /\ lastClaim' = IF ev.ev = "claim" /\ ev.res = "ok" THEN [lastClaim EXCEPT ![ev.actor] = st.epoch] ELSE lastClaim
   /\ l' = l + 1
 Spec == Init /\ [][Next]_vars
